@@ -144,13 +144,24 @@ func (e *Env) lockStruct(pkg *packages.Package, tn *types.TypeName, st *types.St
 				lits = append(lits, fl)
 			}
 			if call, isCall := n.(*ast.CallExpr); isCall {
+				h := held(call.Pos())
+				if len(lits) > 0 {
+					h = litHeld[lits[len(lits)-1]]
+				}
 				// calls of same-package functions: remembered with the lock state at the call
 				if fn := calleeFunc(info, call); fn != nil && fn.Pkg() == pkg.Types {
-					h := held(call.Pos())
-					if len(lits) > 0 {
-						h = litHeld[lits[len(lits)-1]]
-					}
 					callSites[fn] = append(callSites[fn], callSite{fd, h})
+				}
+				// a method value handed to a library function that calls it during the call
+				// (ast.Inspect(file, x.visit)): called with the lock state of this call
+				if fn := calleeFunc(info, call); fn != nil && fn.Pkg() != nil && (fn.Pkg().Path() == "go/ast" || fn.Pkg().Path() == "sort" || fn.Pkg().Path() == load.PkgDst) {
+					for _, a := range call.Args {
+						if se, ok := a.(*ast.SelectorExpr); ok {
+							if mf, ok := info.Uses[se.Sel].(*types.Func); ok && mf.Pkg() == pkg.Types {
+								callSites[mf] = append(callSites[mf], callSite{fd, h})
+							}
+						}
+					}
 				}
 			}
 			se, ok := n.(*ast.SelectorExpr)
